@@ -921,6 +921,8 @@ func C12(c *core.Ctx) {
 
 	// ---- every short string of Tlv.tla's table: bare and wrapped as the content of every LDS template ----
 	c12ShortStrings(c, x)
+	// ---- every zone of Mrz.tla's mutant table (substitutions, transpositions, deletions, insertions on valid zones) ----
+	c12MrzTable(c, x)
 	// ---- evidence bundles with absent / empty / oversized structures ----
 	c12Evidence(c, x, lives)
 	// ---- hostile chips ----
@@ -1332,4 +1334,70 @@ func replaceLastOctetString(b []byte, val []byte) []byte {
 		return nil
 	}
 	return replaceNode(b, nodes, last, append([]byte{0x04}, berLenEnc(len(val))...), val, true)
+}
+
+// c12MrzTable feeds every zone of the Mrz.tla table (the structured neighbourhood of valid zones: every single
+// character substitution incl. '<' at every position, transpositions, deletions, insertions) to the MRZ entry points,
+// bare and as the content of a DG1.
+func c12MrzTable(c *core.Ctx, x *c12ctx) {
+	var zones []string
+	c.MustTLC(core.TLCOpts{Module: "MC_Mrz", Cfg: core.Pick(c, "MC_Mrz_quick.cfg", "MC_Mrz_full.cfg"), Timeout: 30 * time.Minute, OnLine: func(line string) {
+		if !strings.HasPrefix(line, "<<\"T\"") {
+			return
+		}
+		v, err := core.ParseTLA(line)
+		if err != nil {
+			return
+		}
+		codes := core.Ints(v.([]any)[1])
+		b := make([]byte, len(codes))
+		for i, k := range codes {
+			switch {
+			case k < 10:
+				b[i] = byte('0' + k)
+			case k < 36:
+				b[i] = byte('A' + k - 10)
+			case k == 36:
+				b[i] = '<'
+			default:
+				b[i] = ' '
+			}
+		}
+		zones = append(zones, string(b))
+	}})
+	if len(zones) < 1000 {
+		core.Infra("C12: MRZ table has %d zones", len(zones))
+	}
+	type bad struct {
+		entry, zone, text string
+	}
+	var mu sync.Mutex
+	var bads []bad
+	core.ParallelFor(len(zones), func(i int) {
+		z := zones[i]
+		dg1 := append([]byte{0x5F, 0x1F, byte(len(z))}, z...)
+		dg1 = append(append([]byte{0x61}, berLenEnc(len(dg1))...), dg1...)
+		for _, e := range []struct {
+			name string
+			in   []byte
+		}{{"mrz.MrzDecode", []byte(z)}, {"password.NewPasswordMrz", []byte(z)}, {"document.NewDG1", dg1}} {
+			func() {
+				defer func() {
+					if r := recover(); r != nil {
+						buf := make([]byte, 2048)
+						k := runtime.Stack(buf, false)
+						mu.Lock()
+						bads = append(bads, bad{e.name, z, fmt.Sprintf("%v\n%s", r, buf[:k])})
+						mu.Unlock()
+					}
+				}()
+				_ = x.entry(e.name, e.in)()
+			}()
+		}
+	})
+	c.Evaluations += int64(3 * len(zones))
+	c.Extra["mrz_table_zones"] = len(zones)
+	for _, b := range bads {
+		c.Violation("C12:panic:"+b.entry+":"+panicSite(b.text), fmt.Sprintf("%s panicked on the zone %q: %s", b.entry, b.zone, firstLine(b.text)), map[string]any{"entry_point": b.entry, "zone": b.zone})
+	}
 }
